@@ -99,6 +99,7 @@ fixed("C20", "nil ToActivity nil top panic@ToActivity", "0dccdd1", "ToActivity(n
 fixed("C20", "nil OnIRIs(list) * list* panic@*", "02e590d", "OnIRIs/ToIRIs on an item list holding a nil item or a nil pointer panicked in ItemCollection.IRIs (GetLink on every member); shown after C20 gained the list positions for the whole On* family", "cells: OnIRIs(list) (*Object)(nil) list")
 fixed("C20", "nil ItemsEqual(x,x) * all-props:* panic@*GetLink", "6c8ae29", "ItemsEqual on a value whose url property holds a typed-nil pointer called GetLink on it (Object.Equals tested the url with != nil); shown after C20 gained the all-props positions (the nil item in every item-valued property of every struct type), which a round-4 seeded change made necessary", "cells: ItemsEqual(x,x) (*Object)(nil) all-props:Object")
 fixed("C20", "nil CollectionPath.IRI/Of/AddTo * list* panic@CollectionPath.ofObject", "ebef377", "CollectionPath.Of on an item list holding a nil pointer (or an empty IRI) dereferenced the nil *Object that OnObject hands to the callback for such a member; found when C12 planted empty IRIs into lists, then shown by C20 after the list positions were added for the CollectionPath helpers", "cells: CollectionPath.IRI/Of/AddTo (*Object)(nil) list1")
+fixed("C20", "nil OnIRIs(list) * list-ptr panic@*", "b4fe60e", "ToIRIs/OnIRIs on a pointer to an item list that holds a nil member called GetLink on the nil member (the row for the list held by value had been repaired in 02e590d)", "cells: OnIRIs(list) (*Actor)(nil) list-ptr; first noticed by a sub-agent while it was seeding round 14")
 fixed("C04", "total hang * follow-up nesting:lists", "1bf2f5d", "duplicated rows in the gob encoder encoded tag/shares/inbox twice per level: GobEncode cost doubled with each nesting level (10 s for 20 levels)", "nesting layer: lists depth 100")
 fixed("C04", "total panic@(*NaturalLanguageValues).UnmarshalText *", "fdef947", "NaturalLanguageValues.UnmarshalText indexed data[0] on empty input and sliced [1:0] on a lone quote", "tiny layer: (*NaturalLanguageValues).UnmarshalText with empty input")
 fixed("C04", "total hang * follow-up nesting:collection", "3fad8c5", "OrderedCollection.Equals compared the ordered items twice per level: ItemsEqual on nested ordered collections was exponential", "nesting layer: collection depth 100")
